@@ -15,7 +15,7 @@ def in_scope(t):
     rerun / skip and executor faults are not."""
     p = t['prog']
     m = t['meta']
-    if m['scheduler'] != 'default' or m.get('c20') or p['type'] != 'direct':
+    if m.get('c20') or p['type'] != 'direct':
         return False
     if any(o['op'] not in ('pause', 'resume', 'stop') for o in (m.get('ops') or [])):
         return False
@@ -41,13 +41,13 @@ PROPERTIES = ['JoinGateM', 'FinishedFrozenM', 'ResultOnceM', 'SuccessStickyM', '
 
 
 def model_check(d, name, prog, liveness=False, timeout=1800, confluence=False, ops=0, dups=0, workers=None,
-                kinds=('pause', 'resume', 'stop')):
+                kinds=('pause', 'resume', 'stop'), scheduler='default'):
     common.put_spec(d, *[os.path.join('engine', f_) for f_ in ('MistralEngine.tla',)])
     mc = 'MC_Engine_' + re.sub(r'\W', '_', name)
     with open(os.path.join(d, mc + '.tla'), 'w') as fh:
         fh.write('---- MODULE %s ----\nEXTENDS MistralEngine\nDConst == %s\nMCInit == D = DConst /\\ Init /\\ TLCSet(1, <<>>)\n'
                  'MCSpec == MCInit /\\ [][Next]_vars\nMCFairSpec == MCSpec /\\ WF_vars(Next)\nTimeBound == now <= 20 /\\ InDomain\nMCOpKinds == %s\n====\n' % (mc, def_tla(prog), tla(set(kinds))))
-    consts = 'CONSTANT OpBudget = %d\nCONSTANT DupBudget = %d\nCONSTANT NoopOps = FALSE\nCONSTANT OpKinds <- MCOpKinds\n' % (ops, dups)
+    consts = 'CONSTANT OpBudget = %d\nCONSTANT DupBudget = %d\nCONSTANT NoopOps = FALSE\nCONSTANT OpKinds <- MCOpKinds\nCONSTANT Scheduler = "%s"\n' % (ops, dups, scheduler)
     with open(os.path.join(d, mc + '.cfg'), 'w') as fh:
         fh.write('SPECIFICATION %s\nVIEW view\nCONSTRAINT TimeBound\n%s%s%s%sCHECK_DEADLOCK FALSE\n'
                  % ('MCFairSpec' if liveness else 'MCSpec', consts, ''.join('INVARIANT %s\n' % i for i in INVARIANTS),
@@ -68,10 +68,18 @@ def strict_validate(d, traces, tag='strict', chunk=60, dump=False, tlc_timeout=4
     acc, reached = set(), {}
     st = tr = 0
     import concurrent.futures as cf
-    nch = (len(traces) + chunk - 1) // chunk
+    # the scheduler implementation is a constant of the model: one TLC run per (scheduler, chunk)
+    order = sorted(range(len(traces)), key=lambda i: traces[i]['meta'].get('scheduler', 'default'))
+    groups = []
+    for sch in ('default', 'legacy'):
+        idx = [i for i in order if traces[i]['meta'].get('scheduler', 'default') == sch]
+        for c0 in range(0, len(idx), chunk):
+            groups.append((sch, idx[c0:c0 + chunk]))
+    nch = len(groups)
 
     def one(k):
-        part = traces[k * chunk:(k + 1) * chunk]
+        sch, members = groups[k]
+        part = [traces[i] for i in members]
         tf = os.path.join(d, 'strict_%s_%d.ndjson' % (tag, k))
         with open(tf, 'w') as fh:
             for t in part:
@@ -82,8 +90,8 @@ def strict_validate(d, traces, tag='strict', chunk=60, dump=False, tlc_timeout=4
             fh.write('---- MODULE MC_EngineTrace_%s_%d ----\nEXTENDS EngineTrace\n====\n' % (tag, k))
         cfgp = mod[:-4] + '.cfg'
         with open(cfgp, 'w') as fh:
-            fh.write('SPECIFICATION TSpec\nCONSTANT OpBudget = 1000\nCONSTANT DupBudget = 1000\nCONSTANT NoopOps = TRUE\nCONSTANT OpKinds <- AllOpKinds\nCONSTRAINT %s\nCHECK_DEADLOCK FALSE\n'
-                     % ('DumpReport' if dump else 'Report'))
+            fh.write('SPECIFICATION TSpec\nCONSTANT OpBudget = 1000\nCONSTANT DupBudget = 1000\nCONSTANT NoopOps = TRUE\nCONSTANT OpKinds <- AllOpKinds\nCONSTANT Scheduler = "%s"\nCONSTRAINT %s\nCHECK_DEADLOCK FALSE\n'
+                     % (sch, 'DumpReport' if dump else 'Report'))
         try:
             r = common.run_tlc(mod, cfgp, workers=1, env={'TRACE_FILE': tf}, timeout=tlc_timeout, metatag='engstrict%s%d' % (tag, k), heap='3g')
         except common.MachineryError as e:
@@ -91,17 +99,17 @@ def strict_validate(d, traces, tag='strict', chunk=60, dump=False, tlc_timeout=4
                 raise
             # the unlogged choices of some run of this chunk made the search too large: those runs stay undecided (neither
             # accepted nor a divergence)
-            for i in range(len(part)):
-                UNDECIDED.add(k * chunk + i)
+            for i in members:
+                UNDECIDED.add(i)
             return set(), {}, 0, 0
         if dump:
             open(os.path.join(d, 'strict_%s_%d.out' % (tag, k)), 'w').write(r.out)
         if not r.finished:
             raise common.MachineryError('EngineTrace did not finish:\n' + r.out[-3000:])
-        a = set(k * chunk + int(m.group(1)) - 1 for m in re.finditer(r'<<"accepted", (\d+)>>', r.out))
+        a = set(members[int(m.group(1)) - 1] for m in re.finditer(r'<<"accepted", (\d+)>>', r.out))
         rc = {}
         for m in re.finditer(r'<<"reached", (\d+), (\d+)>>', r.out):
-            i = k * chunk + int(m.group(1)) - 1
+            i = members[int(m.group(1)) - 1]
             rc[i] = max(rc.get(i, 0), int(m.group(2)))
         return a, rc, r.distinct, r.generated
 
